@@ -79,14 +79,19 @@ class Synth(object):
         self.pkg[''] = root
         self.row('EP_PKG', Package_ID=root, Sys_ID=sys_id, Direct_Sys_ID=sys_id, Name='Root', Descrip='', Num_Rng=0)
         self.row('PE_PE', Element_ID=root, Visibility=1, Package_ID=0, Component_ID=0, type=7)
+        nest = {c: p for c, p in d.get('nest', [])}
         for cname in d.get('comps', []):
-            cid = self.id()
-            self.comp[cname] = cid
+            self.comp[cname] = self.id()
+            self.pkg[cname] = self.id()
+        for cname in d.get('comps', []):
+            cid, pid = self.comp[cname], self.pkg[cname]
             self.row('C_C', Id=cid, Package_ID=0, NestedComponent_Id=0, Name=cname, Descrip='', Mult=0, Root_Package_ID=0,
                      isRealized=False, Realized_Class_Path='', Key_Lett=cname)
-            self.pe(cid, '', 2)
-            pid = self.id()
-            self.pkg[cname] = pid
+            if cname in nest:
+                # a component nested in another one: it lives in that component's package
+                self.row('PE_PE', Element_ID=cid, Visibility=1, Package_ID=self.pkg[nest[cname]], Component_ID=0, type=2)
+            else:
+                self.pe(cid, '', 2)
             self.row('EP_PKG', Package_ID=pid, Sys_ID=0, Direct_Sys_ID=0, Name=cname + '_pkg', Descrip='', Num_Rng=0)
             # the package lives directly inside the component
             self.row('PE_PE', Element_ID=pid, Visibility=1, Package_ID=0, Component_ID=cid, type=7)
